@@ -65,7 +65,9 @@ def allowed(vals):
         rem.update(LOOP_TOKS)
     moves = v("mod_move_case_break") == "true" or v("mod_move_case_return") == "true"
     sort = any(v(k) == "true" for k in SORTS) or v("mod_sort_oc_properties") == "true"
-    dup = v("mod_remove_duplicate_include") == "true"
+    # whole duplicate #include lines may go: mod_remove_duplicate_include, and the de-duplication that the grouping mode of
+    # the include sorter performs (dedupe_imports() in sorting.cpp) -- both "whole duplicate #include lines" of the property
+    dup = v("mod_remove_duplicate_include") == "true" or (sort and v("mod_sort_incl_import_grouping_enabled") == "true")
     return add, rem, sort, dup, moves
 
 
@@ -117,6 +119,22 @@ short int si; unsigned u1; long int li; signed int sg; int unsigned iu;
 void g(void) { for (;;) { break; } while (1) { break; } do { x(); } while (1); return; }
 int h(int a, int b) { if (a) { return (a + b); } else return b; ;
   switch (a) { case 1: { b++; } break; case 2: b--; break; default: { return 1; } } return a && b || a < b; }
+void m(int a, int b) {
+  if (a &&
+      b) {
+    while (a) b--;
+  } else if (b ||
+             a) {
+    for (;;) a++;
+  }
+  if (a
+      && b)
+  {
+    if (b) a--;
+  }
+  if (a) { { g(); } h(1, 2); } else { k(0, 0, 0); }
+  while (a) for (;b;) { if (b) a--; }
+}
 void k(int *t, int n, int i) { int ok = t[i < n ? i : n] == 0 && n > 1; if (ok && (t[i] || n)) return; }
 """
 
@@ -210,6 +228,22 @@ def run(ctx):
             o = draw_mods(rng, reg)
             o.update(draw_ws(rng))
             jobs.append(pipeline.Job(name, sc.cfg(None, o), inp, lang, {"opts": o, "text": txt, "kind": "combo"}))
+        # (d) families of interacting options: every option of one family set with probability 1/2
+        fams = [BRACE_IARF + ["mod_full_brace_if_chain", "mod_full_brace_if_chain_only", "mod_full_brace_nl", "mod_full_brace_nl_block_rem_mlcond"],
+                ["mod_paren_on_return", "mod_paren_on_throw", "mod_full_paren_if_bool", "mod_full_paren_assign_bool", "mod_full_paren_return_bool"],
+                INT_IARF + ["mod_int_prefer_int_on_left"],
+                [k for k in mods if k.startswith("mod_sort_")] + ["mod_remove_duplicate_include"],
+                ["mod_case_brace", "mod_move_case_break", "mod_move_case_return", "mod_remove_empty_return", "mod_remove_extra_semicolon",
+                 "mod_enum_last_comma", "mod_infinite_loop"]]
+        for fam in fams:
+            for _ in range(60 if thorough else 14):
+                inp, lang, txt, name = rng.choice(inputs)
+                o = {}
+                for k in fam:
+                    if rng.random() < 0.5:
+                        o.update(draw_mods(rng, reg, single=k))
+                o.update(draw_ws(rng))
+                jobs.append(pipeline.Job(name, sc.cfg(None, o), inp, lang, {"opts": o, "text": txt, "kind": "family"}))
         # (c) mods at default
         for inp, lang, txt, name in inputs:
             o = draw_ws(rng)
@@ -251,27 +285,26 @@ def run(ctx):
             a, b = tok_texts(tin), tok_texts(tout)
             vals = j.vals
             add, rem, sort, dup, moves = allowed(vals)
-            if sort or dup or moves:
+            if sort or dup:
                 la, ra = directive_lines(a, tin)
                 lb, rb = directive_lines(b, tout)
-                if sort and not moves:
-                    ca, cb = collections.Counter(la), collections.Counter(lb)
-                    if (set(cb) - set(ca)) or (not dup and ca != cb) or any(cb[k] > ca[k] for k in cb) or (dup and set(ca) != set(cb)):
-                        bad += _viol(ctx, j, "sorting: the include/import/using lines of the output are not a permutation of the input's "
-                                     "(missing %s, new %s)" % (list((ca - cb).keys())[:2], list((cb - ca).keys())[:2]))
-                        continue
-                    a, b = ra, rb
-                elif dup and not moves:
-                    ca, cb = collections.Counter(la), collections.Counter(lb)
-                    if set(ca) != set(cb) or any(cb[k] > ca[k] for k in cb):
-                        bad += _viol(ctx, j, "duplicate include removal: the set of include lines changed")
-                        continue
-                    a, b = ra, rb
-                if moves:
-                    # break; / return ...; may move across a closing brace: compare as multisets plus filtered order
-                    if collections.Counter(x for x in a if x not in add | rem) != collections.Counter(x for x in b if x not in add | rem):
-                        bad += _viol(ctx, j, "case-break move: token multiset changed")
+                ca, cb = collections.Counter(la), collections.Counter(lb)
+                if sort:
+                    wrong = (set(cb) - set(ca)) or any(cb[k] > ca[k] for k in cb) or (ca != cb if not dup else set(ca) != set(cb))
+                else:
+                    wrong = la != lb and (set(ca) != set(cb) or any(cb[k] > ca[k] for k in cb)
+                                          or [x for x in dict.fromkeys(la)] != [x for x in dict.fromkeys(lb)])
+                if wrong:
+                    bad += _viol(ctx, j, "the include/import/using lines of the output are not %s of the input's (missing %s, new %s)"
+                                 % ("a permutation" if sort else "the same lines minus duplicates", list((ca - cb).keys())[:2], list((cb - ca).keys())[:2]),
+                                 key=_key(j, "lines"))
                     continue
+                a, b = ra, rb
+            if moves:
+                # break; / return ...; may move across a closing brace: the other tokens as multisets
+                if collections.Counter(x for x in a if x not in add | rem) != collections.Counter(x for x in b if x not in add | rem):
+                    bad += _viol(ctx, j, "case-break move: token multiset changed", key=_key(j, "moves"))
+                continue
             fa = [x for x in a if x not in rem and x not in add]
             fb = [x for x in b if x not in rem and x not in add]
             if fa != fb:
